@@ -22,6 +22,7 @@ typedef struct fb_slot {
   fiber_t* fiber;
   _Atomic int finished;
   long a, b, c;  // scenario scratch
+  uint64_t c_mark;
 } fb_slot_t;
 
 extern fb_slot_t fb_slots[FB_MAX_SLOTS];
